@@ -311,7 +311,9 @@ class AbstractDateTime(AnyAtomicType):
                 year = self._year + op(self._dt.month - 1, other.months) // 12
                 day = adjust_day(year, month, self._dt.day)
 
-                if year > 0:
+                if year > datetime.MAXYEAR:
+                    raise OverflowError(f"year {year} is out of range")
+                elif year > 0:
                     dt = self._dt.replace(year=year, month=month, day=day)
                 elif isleap(year):
                     dt = self._dt.replace(year=4, month=month, day=day)
@@ -1126,18 +1128,21 @@ class Duration(AnyAtomicType):
         if not isinstance(other, self.__class__):
             raise TypeError("wrong type %r for operand %r" % (type(other), other))
 
+        def microseconds(days: int, seconds: int, useconds: int) -> int:
+            return (days * 86400 + seconds) * 1000000 + useconds
+
         m1, s1 = self.months, int(self.seconds)
         m2, s2 = other.months, int(other.seconds)
         ms1, ms2 = int((self.seconds - s1) * 1000000), int((other.seconds - s2) * 1000000)
         return all([
-            op(datetime.timedelta(months2days(1696, 9, m1), s1, ms1),
-               datetime.timedelta(months2days(1696, 9, m2), s2, ms2)),
-            op(datetime.timedelta(months2days(1697, 2, m1), s1, ms1),
-               datetime.timedelta(months2days(1697, 2, m2), s2, ms2)),
-            op(datetime.timedelta(months2days(1903, 3, m1), s1, ms1),
-               datetime.timedelta(months2days(1903, 3, m2), s2, ms2)),
-            op(datetime.timedelta(months2days(1903, 7, m1), s1, ms1),
-               datetime.timedelta(months2days(1903, 7, m2), s2, ms2)),
+            op(microseconds(months2days(1696, 9, m1), s1, ms1),
+               microseconds(months2days(1696, 9, m2), s2, ms2)),
+            op(microseconds(months2days(1697, 2, m1), s1, ms1),
+               microseconds(months2days(1697, 2, m2), s2, ms2)),
+            op(microseconds(months2days(1903, 3, m1), s1, ms1),
+               microseconds(months2days(1903, 3, m2), s2, ms2)),
+            op(microseconds(months2days(1903, 7, m1), s1, ms1),
+               microseconds(months2days(1903, 7, m2), s2, ms2)),
         ])
 
     def __hash__(self) -> int:
